@@ -158,6 +158,8 @@ structure ServerScript where
   replies : List Int                  -- bitmask replies in the authentication loop, in order
   authOK : String → Bool              -- would the exchange for method m with this peer succeed
   hasKeyMsg : Option Int              -- the post-authentication key message (none: never sent)
+  keyRecord : Bool := false           -- a non-zero hasKey is followed, in the same message, by a well-formed
+                                      -- key record (length, protocol, duration, input length, that many bytes)
   postAuth : Option PostAuth          -- none: never sent
 
 structure Outcome where
@@ -209,9 +211,11 @@ def clientAuthPhase (cfg : ClientCfg) (srv : ServerScript) : Except Err (Bool ×
     else match clientLoop offered srv.authOK (bitmaskOf offered) srv.replies [] with
       | .success m ran =>
         -- exchangeKey: the server's hasKey message
+        -- (a key the server does send is read and ignored: AES-GCM sessions take their key from ECDH)
         match srv.hasKeyMsg with
         | some 0 => .ok (true, m, ran)
-        | _ => .error .eof
+        | some _ => if srv.keyRecord then .ok (true, m, ran) else .error .eof
+        | none => .error .eof
       | .exhausted _ => .error .refused
       | .protocolErr _ => .error .malformed
 
